@@ -12,7 +12,7 @@ SAME_CURSOR_BUT_POS = ['self.cursor.len == old_self.cursor.len', 'self.cursor.te
 def register(reg):
     contract(reg, f'{T}:TextLinesCursor.goto', P + ['C09', 'C08'], {'self': 'Cursor', 'pos': 'int'}, ret='None', modifies=['self'],
              ensures=[('property', 'self.pos == max(0, min(self.len, pos))'),
-                      'self.len == old_self.len', 'self.textstr == old_self.textstr', 'self.input == old_self.input'])
+                      'self.len == old_self.len', 'self.textstr == old_self.textstr', 'self.input == old_self.input', 'self._namechars == old_self._namechars'])
     contract(reg, f'{T}:TextLinesCursor.clone', P, {'self': 'Cursor'}, ret='Cursor', verify=False,
              ensures=['result == self'], note='`type(self)(self.input, pos=self.pos)`: a cursor on the same text at the same position')
 
